@@ -348,9 +348,12 @@ func ruleC14AccessGating(c *Ctx) {
 				}
 			}
 			if se.Sel.Name == "Seek" && len(cs.Call.Args) == 2 {
-				if tv := info.Types[cs.Call.Args[0]]; tv.Value != nil && tv.Value.String() == "0" {
-					if k := constOf(info, cs.Call.Args[1]); k != nil && k.Name() == "SeekStart" {
-						seekCall = cs.Call
+				// the absolute seek that positions a non-appending handle (to the start, or to where it stood while
+				// reading); the rewind of the just-truncated buffer is told apart by being constant AND under flags.Truncate
+				if k := constOf(info, cs.Call.Args[1]); k != nil && k.Name() == "SeekStart" {
+					underTrunc, _ := fl.guardedBy(cs.Call, func(ft Fact) bool { return selField(info, ft.E) == flagsT && ft.Pos }, nil)
+					if !underTrunc || seekCall == nil {
+						seekCall = cs.Call // (a seek outside the truncate branch wins over the rewind inside it)
 					}
 				}
 			}
